@@ -130,3 +130,30 @@ prop("C13", "proof",
      trusted=["CBMC models of malloc/memcpy/memset/memcmp"],
      assumptions=["'within 32-bit size limits' is read as: every size field of the header can hold its value (block_align 16 bits, byte_rate / data size / RIFF size 32 bits)",
                   "pack.c callees are inlined in these harnesses (their contracts are enforced under C12)"])
+
+# ---------------------------------------------------------------------------- C20
+ML = "harness/C20_mlog.c"
+_DUMP_QUICK = (0, 1, 2, 15, 16, 17, 63, 64, 127, 128, 129, 200, 253, 254, 255)
+prop("C20", "proof",
+     "Contracts on vmlog / vmlog_nice / mlog_clear / get_line (attached by redeclaration after the definition, enforced by goto-instrument --dfcc) and "
+     "harness-level postconditions for the variadic wrappers and the readers, against a ghost 64-bit message count and one prophecy-chosen watched message. "
+     "Every operation starts from an arbitrary state satisfying the counter invariant (head symbolic over its whole range, fold after 2^31 included) and re-establishes it, "
+     "so histories of any length are covered by induction from the static initial state.",
+     [
+      H("vmlog", ML, "h_mlog", ["vmlog", "mlog"], enforce=["vmlog"], timeout=600, solvers=("z3", "cvc5", "cadical")),
+      H("vmlog_nice", ML, "h_mlog_nice", ["vmlog_nice", "mlog_nice", "vmlog"], enforce=["vmlog_nice"], timeout=600, solvers=("z3", "cvc5", "cadical")),
+      H("mlog_clear", ML, "h_clear", ["mlog_clear", "get_line", "mlog_get_line"], timeout=300, solvers=("z3", "cvc5", "cadical")),
+      H("mlog_clear_contract", ML, "h_clear", ["mlog_clear"], enforce=["mlog_clear"], timeout=300, solvers=("z3", "cvc5", "cadical")),
+      H("initial", ML, "h_initial", ["mlog_get_line"], timeout=300, solvers=("z3", "cvc5", "cadical")),
+      H("get_line", ML, "h_get_line", ["get_line"], enforce=["get_line"], timeout=300, solvers=("z3", "cvc5", "cadical")),
+      H("mlog_get_line", ML, "h_mlog_get_line", ["mlog_get_line"], replace_calls=["get_line:get_line_contract"], timeout=900, solvers=("z3", "cvc5", "cadical")),
+     ] + [
+      H("mlog_dump_line%03d" % k, ML, "h_mlog_dump", ["mlog_dump"], replace_calls=["get_line:get_line_contract_dump"], enforce=["mlog_dump"],
+        defs=["-DKFIX=%d" % k], unwind=258, timeout=900, solvers=("z3",), cover=False,
+        tiers=(("quick", "thorough") if k in _DUMP_QUICK else ("thorough",)), note="watched line index k = %d" % k)
+      for k in range(256)
+     ],
+     trusted=["formatting is external: strdup_printf / fprintf are replaced (by macro, at the call sites of mlog.c) with stubs that capture the format pointer and the three arguments",
+              "CBMC's va_list model"],
+     assumptions=["ghost message count is maintained by the harness (+1 per recorded message, 0 at clear)",
+                  "mlog_dump: one query per watched line index k; the quick tier runs 15 of the 256 values (partial), the thorough tier all 256 (complete)"])
